@@ -26,9 +26,11 @@ Import ListNotations.
 Open Scope Z_scope.
 
 (* ------------------------------------------------------------ Type 3: the air *)
-Record air := mkAir { a_script : list aresult; a_sent : list (list Z) }.
+(* a_blocks (ghost): the block numbers of all read commands built so far, latest first *)
+Record air := mkAir { a_script : list aresult; a_sent : list (list Z); a_blocks : list Z }.
 Definition air_xchg (s : air) (frame : list Z) : aresult * air :=
-  (hd_x (a_script s), mkAir (tl (a_script s)) (frame :: a_sent s)).
+  (hd_x (a_script s), mkAir (tl (a_script s)) (frame :: a_sent s) (a_blocks s)).
+Definition air_note (s : air) (bl : list Z) : air := mkAir (a_script s) (a_sent s) (rev bl ++ a_blocks s).
 (* nfc.tag.TIMEOUT_ERROR, RECEIVE_ERROR, PROTOCOL_ERROR *)
 Definition comm_errno (a : aresult) : Z := match a with ATimeout => 0 | ATxErr => -1 | _ => -2 end.
 (* send_cmd_recv_rsp: for retry in range(3): try: rsp = clf.exchange(cmd, timeout); break *)
@@ -60,7 +62,7 @@ Definition t3_rsp_any (code : Z) (send_idm : bool) (idm rsp : list Z) : res (lis
 Definition t3_dev_read (idm : list Z) (s : air) (bl : list Z) : res (list Z) * air :=
   match rd_frame idm bl with
   | Ok f =>
-    match t3_xchg3 s f with
+    match t3_xchg3 (air_note s bl) f with
     | (Ok rsp, s1) =>
       (do d <- t3_rsp_any 6 true idm rsp;
        if negb (len d =? 1 + 16 * len bl) then Err (TagCommandError 4) else Ok (drop 1 d), s1)
@@ -119,14 +121,17 @@ Definition t3_session (idm : list Z) (sys : Z) (s : air) : res fresh * option (r
 
 (* ------------------------------------------------------------ Type 4: the APDU channel *)
 Inductive ares := AOk (rsp : list Z) | AFail (errno : Z).
-Record chan := mkChan { c_script : list ares; c_apdus : list (list Z) }.
+(* c_reads (ghost): offset and Le of all READ BINARY commands built so far, latest first *)
+Record chan := mkChan { c_script : list ares; c_apdus : list (list Z); c_reads : list (Z * Z) }.
 Definition hd_a (l : list ares) : ares := match l with x :: _ => x | [] => AFail 0 end.
 Definition ares_res (a : ares) : res (list Z) := match a with AOk d => Ok d | AFail e => Err (TagCommandError e) end.
 
 (* Type4Tag.send_apdu(0, ins, p1, p2, data, mrl) *)
 Definition t4_send_any (s : chan) (o : op) : res (list Z) * chan :=
   match apdu_of_op o with
-  | Ok a => (apdu_finish true (ares_res (hd_a (c_script s))), mkChan (tl (c_script s)) (a :: c_apdus s))
+  | Ok a => (apdu_finish true (ares_res (hd_a (c_script s))),
+             mkChan (tl (c_script s)) (a :: c_apdus s)
+                    (match o with RdBin off m => (off, m) :: c_reads s | _ => c_reads s end))
   | Err e => (Err e, s) | Crash x => (Crash x, s) | Hang => (Hang, s)
   end.
 
